@@ -10,6 +10,7 @@ import PrologVerif.Proofs.LexerSpec
 import PrologVerif.Proofs.LexerRing
 import PrologVerif.Proofs.ReadBack
 import PrologVerif.Proofs.CanonRoundtrip
+import PrologVerif.Proofs.OpRoundtrip
 namespace PrologVerif.C06Example
 open PrologVerif PrologVerif.Lexer PrologVerif.Write
 
@@ -286,10 +287,117 @@ example :
     writeCanonical exEnv Ops.defaultTable t = "f('hello world',-(1),-1,1.5,_a,[],_a,[](-))".toList := by
   decide +kernel
 
-/-- P2 (open): the same for `writeq` with operators. -/
+/-! ### P2: `writeq` with operators
+
+  `qt e G t o` (Proofs/OpRoundtripDefs.lean) is the token sequence the text of `writeq` is meant to lex to,
+  defined by the writer's own recursion (same bracket conditions).  The reader half is proved for EVERY
+  well-formed term and EVERY operator table satisfying `tableOK` (implied by the invariant `Ops.Valid` of
+  Properties/C18, hence true of every table reachable through op/3): the classical correctness argument of
+  operator-precedence printing, on the model of `Parser.term` — `term(mp)` reads `qt t o` as `t` whenever
+  the writer's priority for the position is ≤ `mp` and the next token cannot continue the term at any
+  priority the writer relied on (`Write.qspec_all`, by induction on the term: prefix / postfix / infix
+  operators with brackets by priority and by the operator on the right, operators as atoms and arguments,
+  negative numbers, `- (1)`, `,` `|` `[]` `{}`, lists, curly terms, functional notation). -/
+
+/-- the full statement kept visible: false as it stands (see the witnesses below) -/
 def C06_op_roundtrip_statement : Prop :=
   ∀ (e : Env) (ops : Ops.Table) (dq : Read.DoubleQuotes) (t : Term),
     (∀ c, e.cfg.conv c = c) →
     Read.readTerm e.cfg ops dq (writeq e ops t ++ [' ', '.']) = .ok t.canon
+
+/-- P2, reader half: if the text `writeq` emits for `T` lexes to the tokens `qt` (a decidable check,
+    `Write.lexOK`), then `read_term` returns `T` with its variables renamed by first occurrence — for every
+    well-formed term, every table with `tableOK`, every double_quotes flag. -/
+theorem C06_op_roundtrip_of_tokens (e : Env) (G : UInt64 → GText) (P : UInt64 → Bool) (he : EnvOK e G P)
+    (hs : SignOK G P) (ops : Ops.Table) (hops : tableOK ops = true) (dq : Read.DoubleQuotes) (t : Term)
+    (hw : wfTerm t = true) (hn : numsOK P t = true) (hlex : lexOK e G ops t = true) :
+    Read.readTerm e.cfg ops dq (writeq e ops t ++ [' ', '.']) = .ok t.canon :=
+  readTerm_writeq_of_lexOK e G P he hs ops hops dq t hw hn hlex
+
+/-- every table reachable from the default table through op/3 (`Ops.Valid`, C18_inv) satisfies `tableOK` -/
+theorem C06_tableOK_of_valid (ops : Ops.Table) (h : Ops.Valid ops) : tableOK ops = true := tableOK_of_valid h
+
+namespace OpExample
+open PrologVerif.C06Example
+
+/-- `- (1) + a * (b - c) :- \+ f(- , X)` -/
+def exT : Term :=
+  .app ":-" (.cons
+    (.app "+" (.cons (.app "-" (.cons (.int 1) .nil))
+      (.cons (.app "*" (.cons (.atom "a") (.cons (.app "-" (.cons (.atom "b") (.cons (.atom "c") .nil))) .nil))) .nil)))
+    (.cons (.app "\\+" (.cons (.app "f" (.cons (.atom "-") (.cons (.var 7) .nil))) .nil)) .nil))
+
+theorem exSign : SignOK exG exP := by
+  intro b hb
+  have : b = 0x3FF8000000000000 := by simpa [exP] using hb
+  subst this
+  decide
+
+end OpExample
+
+open OpExample PrologVerif.C06Example in
+-- non-vacuity: the hypotheses hold for this term under the default table, and this is what is written
+example : tableOK Ops.defaultTable = true ∧ wfTerm exT = true ∧ numsOK exP exT = true ∧ noVAR exT = true ∧
+    lexOK exEnv exG Ops.defaultTable exT = true ∧
+    writeq exEnv Ops.defaultTable exT = "- (1)+a*(b-c):- \\+f(-,_aaaaaaaa)".toList := by
+  decide +kernel
+
+/-! #### the hypotheses are needed: witnesses on the model
+
+  None of the tables below is reachable through op/3 (`validateOp` refuses them), so these are not defects
+  of the implementation; `'$VAR'(N)` is printed as a variable name by design (numbervars(true)). -/
+
+section
+open PrologVerif.C06Example
+
+/-- the model round trip as an option -/
+def rtq (ops : Ops.Table) (t : Term) : Option Term :=
+  (Read.readTerm exEnv.cfg ops .chars (writeq exEnv ops t ++ [' ', '.'])).toOption
+
+/-- `noVAR`: writeq('$VAR'(1)) is `B`, read back as a variable -/
+theorem C06_op_roundtrip_numbervars_witness :
+    rtq Ops.defaultTable (.app "$VAR" (.cons (.int 1) .nil)) = some (.var 0) := by decide +kernel
+
+/-- `tableOK`, no infix and postfix operator of one name: with op p as (700,xfx) and (200,xf), `p(a)` is
+    written `a p`, where the reader takes `p` for the infix operator -/
+theorem C06_op_roundtrip_infix_postfix_witness :
+    rtq [⟨",", 1000, .xfy⟩, ⟨"p", 700, .xfx⟩, ⟨"p", 200, .xf⟩] (.app "p" (.cons (.atom "a") .nil)) = none := by
+  decide +kernel
+
+/-- `tableOK`, `,` has priority 1000: with (200,xfy) the argument `(a,b)` of `f((a,b))` is not bracketed -/
+theorem C06_op_roundtrip_comma_witness :
+    rtq [⟨",", 200, .xfy⟩] (.app "f" (.cons (.app "," (.cons (.atom "a") (.cons (.atom "b") .nil))) .nil)) =
+      some (.app "f" (.cons (.atom "a") (.cons (.atom "b") .nil))) := by
+  decide +kernel
+
+/-- `tableOK`, `|` has priority ≥ 1001: with (200,xfy) the list `[a|b]` is read as `['|'(a,b)]` -/
+theorem C06_op_roundtrip_bar_witness :
+    rtq [⟨",", 1000, .xfy⟩, ⟨"|", 200, .xfy⟩] (.app "." (.cons (.atom "a") (.cons (.atom "b") .nil))) =
+      some (.app "." (.cons (.app "|" (.cons (.atom "a") (.cons (.atom "b") .nil))) (.cons (.atom "[]") .nil))) := by
+  decide +kernel
+
+/-- `tableOK`, `[]` is not an operator: `'[]'(a,b)` would be written `a[]b`, which the reader rejects -/
+theorem C06_op_roundtrip_brackets_witness :
+    rtq [⟨"[]", 200, .xfx⟩] (.app "[]" (.cons (.atom "a") (.cons (.atom "b") .nil))) = none := by
+  decide +kernel
+
+/-- `tableOK`, priorities ≤ 1200: with (1300,fy) `p(a)` is written `(p a)`, which the reader rejects -/
+theorem C06_op_roundtrip_priority_witness :
+    rtq [⟨"p", 1300, .fy⟩] (.app "p" (.cons (.atom "a") .nil)) = none := by
+  decide +kernel
+
+/-- D26 on the tree before repo commit 88ee1dd: under op(200,xf,e1) `writeq(e1(1.5))` printed `1.5e1`
+    (only the operators named `e` and `E` were kept apart from a float), which is the float 15.0 -/
+theorem C06_op_roundtrip_D26_pinned_witness :
+    (Read.readTerm exEnv.cfg [⟨"e1", 200, .xf⟩] .chars "1.5e1 .".toList).toOption = some (.flt 0x402E000000000000) := by
+  decide +kernel
+
+/-- … the repaired writer puts a space, and the text reads back -/
+example : writeq exEnv [⟨"e1", 200, .xf⟩] (.app "e1" (.cons (.flt 0x3FF8000000000000) .nil)) = "1.5 e1".toList ∧
+    rtq [⟨"e1", 200, .xf⟩] (.app "e1" (.cons (.flt 0x3FF8000000000000) .nil)) =
+      some (.app "e1" (.cons (.flt 0x3FF8000000000000) .nil)) := by
+  decide +kernel
+
+end
 
 end PrologVerif.C06
